@@ -83,6 +83,17 @@ func distMatrixOp(a []string) string {
 			return "err"
 		}
 	}
+	// optional a[9]: rows of another alignment the SAME model object computes first (as `compute distance` does for the
+	// alignments of its input and `distboot` for its replicates): what the model answers for `al` must not depend on it
+	if len(a) > 9 && a[9] != "_" {
+		if warm, werr := mkAlign(align.NUCLEOTIDS, decRows(a[9])); werr == nil {
+			var ww []float64
+			if weights != nil && warm.Length() == len(weights) {
+				ww = weights
+			}
+			dna.DistMatrix(warm, ww, model, -1, -1, -1, -1, gamma, alpha, 1)
+		}
+	}
 	mat, err := dna.DistMatrix(al, weights, model, r[0], r[1], r[2], r[3], gamma, alpha, 1)
 	if err != nil {
 		return "err"
